@@ -70,7 +70,7 @@ func runC15(c *core.Ctx) {
 				media = append([]byte{0, 0, 1, 0x65}, nalBody(t, 1<<20-2500+t.Intn(3000))...)
 			}
 			first = false
-			c.Guard("codecs."+kindNames[kind]+"Payloader.Payload", func() { frags = pay.Payload(uint16(mtu), media) })
+			c.Guard("codecs."+kindNames[kind]+"Payloader.Payload", func() { frags = pay.Payload(uint16(mtu), spare(t, media)) })
 		}
 		return frags
 	}
